@@ -12,12 +12,16 @@ import (
 func init() { Registry["C01"] = C01 }
 
 // c01Alphabet: every single-item operation on every key of the universe.
-func c01Alphabet(keys []val.Item, thorough bool) func(m *model.Model) []drv.Op {
+func c01Alphabet(keys []val.Item, thorough bool, lean bool) func(m *model.Model) []drv.Op {
 	return func(m *model.Model) []drv.Op {
 		t := m.Tables["tab"]
 		var ops []drv.Op
 		for _, k := range keys {
 			ks := func(tag string, o drv.Op) {
+				// the lean alphabet (number-key schema) keeps one operation of every kind
+				if lean && (tag == "Put(shrink)" || tag == "Put(nested)" || tag == "Upd(SET b)" || tag == "Upd(SET b, string)" || tag == "Upd(rejected: operand absent)" || tag == "Put(rejected: condition)" || tag == "Del(rejected: condition)") {
+					return
+				}
 				o.Tag = tag
 				o.Table = "tab"
 				ops = append(ops, o)
@@ -103,7 +107,7 @@ func C01(run *ev.Run, tier string) map[string]interface{} {
 				Name:      "C01/" + sc.name,
 				NewImpl:   newImpl,
 				Init:      []drv.Op{{K: drv.KCreate, Table: "tab", Cfg: &sc.cfg}},
-				Alphabet:  c01Alphabet(sc.keys, thorough),
+				Alphabet:  c01Alphabet(sc.keys, thorough, !thorough && sc.name == "HR(S,N)"),
 				Observe:   func(m *model.Model) []drv.Op { return ObserveOps(m, u) },
 				SigOf:     mc.DefaultSig("C01"),
 				MaxStates: maxStates,
